@@ -69,9 +69,15 @@ def _exec_call(L, c, fresh, f, m, g, dv, P):
         return d.u8.tobytes()
     if "fftvec" in f:
         a, b, r = P(16 * m), P(16 * m), P(16 * m)
-        a.f64[:] = g.integers(-1000, 1000, 2 * m).astype(np.float64)
-        b.f64[:] = g.integers(-1000, 1000, 2 * m).astype(np.float64)
-        r.f64[:] = g.integers(-1000, 1000, 2 * m).astype(np.float64)
+        # generic doubles (kernels that fuse or do not fuse the multiply-add differ in the last bit: the choice of the kernel may depend on
+        # the table only), with a few operands in the subnormal range (their products with ordinary numbers depend on the floating-point
+        # environment an earlier call may have left behind)
+        a.f64[:] = g.standard_normal(2 * m) * 1000.0
+        b.f64[:] = g.standard_normal(2 * m) * 1000.0
+        r.f64[:] = g.standard_normal(2 * m) * 1000.0
+        a.f64[0] = float(np.ldexp(1.25, -1040))
+        b.f64[2 * m - 1] = float(np.ldexp(-1.75, -1050))
+        r.f64[m] = float(np.ldexp(1.5, -1060))
         base = f[:-7]
         if fresh:
             t = L.fn("new_%s_precomp" % base, "p w")(m)
